@@ -72,6 +72,13 @@ def rules(ctx):
             ctx.undecided(o, "outer flat_map over the providers not recognised")
         else:
             nar = narrowing_calls(fd, outer[0], 0)
+            # in-place edits of the provider vector: only reordering is allowed
+            SHRINK = ("::drain", "::truncate", "::split_off", "::retain", "::pop", "::remove", "::swap_remove", "::clear", "::dedup")
+            for l in range(len(fd.body.locals)):
+                if "Vec<model::base_types::VehicleIdx>" in fd.body.local_ty(l):
+                    for d in fd.defs.get(l, ()):
+                        if d.kind == "call-mut" and d.instr is not None and any((d.instr.callee or "").endswith(x) for x in SHRINK):
+                            nar.append(d.instr)
             ctx.decide(o, not nar, "providers.into_par_iter() feeds flat_map directly",
                        "the provider sequence is narrowed by %s at %s before the exchange candidates are generated: vehicles in front of the "
                        "last provider are never offered, so the search can stop at a schedule it could still improve" % (
